@@ -43,21 +43,28 @@ DynEnd(lead) == IF lead \in RelaxLeads
                 ELSE 0
 
 RegInit == TLCSet(1, 0)
-VARIABLES l, slot, slotEnd
-tvars == <<vars, l, slot, slotEnd>>
+VARIABLES l, slot, slotEnd,
+          tseen,     \* tasks as it was at each worker's latest event: an unlocked read made after that event cannot have seen more
+          rdone      \* the panels whose STATE = DONE store was logged since each worker's latest event: a scheduler section
+                     \* that is logged next may have read their state before the store
+tvars == <<vars, l, slot, slotEnd, tseen, rdone>>
 E == Tr[l]
 Ev(name) == l <= Len(Tr) /\ E.e = name /\ l' = l + 1
 Keepslot == UNCHANGED <<slot, slotEnd>>
 
 TInit == /\ RegInit /\ Init /\ l = 3
          /\ slot = [c \in 1..(TN + 1) |-> Map[c]]
+         /\ tseen = [p \in Procs |-> tasks]
+         /\ rdone = [p \in Procs |-> {}]
          /\ slotEnd = [c \in 1..(TN + 1) |-> IF c > TN \/ Map[c] < 0 THEN 0 ELSE IF Dyn THEN DynEnd(c) ELSE SlotEnd(c)]
          /\ Tr[2].e = "Create" /\ Crt.a[1] = TP /\ Crt.a[2] = TN
 
-TLoop == Ev("Loop") /\ Keepslot /\ LET p == E.p IN Loop(p) /\ jcol[p] = Col(E.a[1])
+\* the loop test is an unlocked read made some time before its event is logged: it may have seen any value
+\* tasks has had since the worker's previous event (tasks only decreases), so "positive then" is tseen[p] > 0
+TLoop == Ev("Loop") /\ Keepslot /\ LET p == E.p IN LoopWhen(p, tasks > 0 \/ tseen[p] > 0) /\ jcol[p] = Col(E.a[1])
 TExit == Ev("Exit") /\ Keepslot /\ LET p == E.p IN ExitRacy(p) /\ sing[p] = E.a[1]
 TSched == Ev("Sched") /\ Keepslot /\ LET p == E.p IN
-            /\ Sched(p)
+            /\ SchedWith(p, dpend \cup rdone[p])
             /\ jcol[p] = Col(E.a[1])
             /\ jcol'[p] = Col(E.a[2])
             /\ (E.a[2] >= 0 => bcol'[p] = Col(E.a[3]))
@@ -151,10 +158,14 @@ ResultOK(R) == /\ R.info = minfo
                            /\ \A s \in 1..nsuper : R.xsup[s] = xsupBeg[s] /\ R.xsupend[s] = xsupEnd[s]))
 TResult == Ev("Result") /\ Keepslot /\ mpc = "done" /\ (ResultOK(E) = TRUE) /\ UNCHANGED vars   \* "= TRUE": evaluate as a value, not as an action
 
-TNext == \/ TLoop \/ TExit \/ TSched \/ TNewNsuper \/ TLsubAlloc \/ TSnPivot \/ TSnFact \/ TSnRelease \/ TMark
+TStep == \/ TLoop \/ TExit \/ TSched \/ TNewNsuper \/ TLsubAlloc \/ TSnPivot \/ TSnFact \/ TSnRelease \/ TMark
          \/ TDfsBegin \/ TDfsEnd \/ TWait \/ TClimb \/ TClimbWait \/ TBusyUpdBegin \/ TBusyUpdEnd
          \/ TJoin \/ TPivot \/ TRelease \/ TUAlloc \/ TPruneBegin \/ TPruneEnd \/ TColDone \/ TPanelDone
          \/ TLusupAlloc \/ TDynMap \/ TJoinAll \/ TFixupMove \/ TWrap \/ TResult
+TNext == /\ TStep
+         /\ tseen' = (IF E.p \in DOMAIN tseen THEN [tseen EXCEPT ![E.p] = tasks'] ELSE tseen)
+         /\ LET nd == {c \in Leads : pstate'[c] = DONE /\ pstate[c] # DONE}
+            IN rdone' = [p \in Procs |-> IF p = E.p THEN {} ELSE rdone[p] \cup nd]
 TSpec == TInit /\ [][TNext]_tvars
 
 \* acceptance: the whole file has been consumed.  The high-water mark of l is kept in a TLC
